@@ -19,6 +19,7 @@ import CtyModel.Lemmas.MarksPaths
 import CtyModel.Lemmas.MarksPrologue
 import CtyModel.Lemmas.MarksRebuild
 import CtyModel.Lemmas.d04ConvNoInv
+import CtyModel.Lemmas.d04Call
 import CtyModel.ConvertD08Env
 namespace CtyModel
 namespace C04
@@ -302,6 +303,42 @@ theorem call_noninterference_allowMarked (spec : Fn.Spec) (tf : Fn.TypeFn) (impl
   rw [Fn.call_eq, Fn.call_eq]
   exact Fn.callTable_blind spec tf impl args htf himpl hr hw
 
+/-- **The hypothesis `RefineBlind` of the theorem above was not instantiable for the standard
+library** (audit C04 item 1, last bullet / missing theorem (b)): it quantifies over every value,
+including a marker directly inside a marker, on which `Value.Refine()` is not modelled — it is
+FALSE of `refineNonNull`, the `RefineResult` of most stdlib functions. -/
+theorem refineBlind_false_of_refineNonNull :
+    ¬ Fn.RefineBlind { params := [], refine := some Stdlib.refineNN } :=
+  Fn.refineBlind_refineNN_counterexample
+
+/-- **Non-interference of calls, any specification, restated.** `RefineResult` is asked to be
+blind only on the values the protocol hands it (`refineWith` calls it on `val.Unmark()`:
+top-level unmarked, `Fn.RefineBlindWF`; every `RefineBlind` callback is one). -/
+theorem call_noninterference_allowMarked_wf (spec : Fn.Spec) (tf : Fn.TypeFn) (impl : Fn.ImplFn) (args : List Value)
+    (htf : Fn.TypeBlind tf) (himpl : Fn.ImplBlind impl) (hr : Fn.RefineBlindWF spec)
+    (hw : ∀ v ∈ args, v.v.markerWF = true) :
+    Fn.Out.map unmarkDeep (Fn.call spec tf impl args).1 = (Fn.call spec tf impl (args.map unmarkDeep)).1 := by
+  rw [Fn.call_eq, Fn.call_eq]
+  exact Fn.callTable_blindWF spec tf impl args htf himpl hr hw
+
+/-- **`stdlib.LengthFunc` (its parameter is `AllowMarked`): `Type` and `Impl` as modelled in
+Stdlib/Collection.lean do not look at marks**, so the call computes the same on marked and on
+deeply unmarked arguments — relative to `refineNonNull` being blind on unmarked values, which
+is searched (harness: paired stdlib runs), not proved. -/
+theorem call_noninterference_length (args : List Value) (hr : Fn.RefineBlindWF Stdlib.lengthSpec)
+    (hw : ∀ v ∈ args, v.v.markerWF = true) :
+    Fn.Out.map unmarkDeep (Fn.call Stdlib.lengthSpec Stdlib.lengthType Stdlib.lengthImpl args).1 =
+      (Fn.call Stdlib.lengthSpec Stdlib.lengthType Stdlib.lengthImpl (args.map unmarkDeep)).1 :=
+  call_noninterference_allowMarked_wf _ _ _ args Fn.length_typeBlind Fn.length_implBlind hr hw
+
+/-- … and with no hypothesis left for the protocol + `Type` + `Impl` part (`RefineResult` switched off). -/
+theorem call_noninterference_length_unrefined (args : List Value) (hw : ∀ v ∈ args, v.v.markerWF = true) :
+    Fn.Out.map unmarkDeep
+        (Fn.call { Stdlib.lengthSpec with refine := none } Stdlib.lengthType Stdlib.lengthImpl args).1 =
+      (Fn.call { Stdlib.lengthSpec with refine := none } Stdlib.lengthType Stdlib.lengthImpl (args.map unmarkDeep)).1 :=
+  call_noninterference_allowMarked_wf _ _ _ args Fn.length_typeBlind Fn.length_implBlind
+    (fun r hr => by cases hr) hw
+
 /-- … whose marks are the result's own plus every mark anywhere in any argument. -/
 theorem call_noninterference_marks (args : List Value) (r : Value) (m : String) :
     m ∈ (Fn.withMarkSets r (Fn.argMarkSets args)).marks ↔ m ∈ r.marks ∨ ∃ v ∈ args, m ∈ v.marksDeep := by
@@ -358,6 +395,9 @@ example : Fn.ImplBlind (fun as _ => .ok (as.headD Value.dynVal)) := by
   cases as with
   | nil => exact ⟨rfl, fun r h => by cases h; rfl⟩
   | cons a as => exact ⟨rfl, fun r h => by cases h; exact hw a (by simp)⟩
+example : (Fn.call Stdlib.lengthSpec Stdlib.lengthType Stdlib.lengthImpl
+    [⟨.list .bool, .marked ["m1"] (.seq [.marked ["m2"] (.b true)])⟩]).1 =
+    .ok ⟨.number, .marked ["m1"] (.n (Num.ofInt 1 64))⟩ := by rfl
 example : Fn.Unhandled { params := [{ ty := .dyn }] } [⟨.list .bool, .seq [.marked ["m2"] (.b true)]⟩] "m2" :=
   ⟨0, { ty := .dyn }, _, rfl, rfl, rfl, by decide⟩
 
